@@ -4,6 +4,7 @@ package main
 // validations of random / fixture-based stores for TraceChain.tla.
 
 import (
+	"math"
 	"encoding/json"
 	"errors"
 	"fmt"
@@ -173,21 +174,21 @@ func argsOfPoint(p int) *args.Args {
 }
 
 var policyCatalogue = map[string][]string{
-	"[]":        {`["==", ".x", 7]`, `["<", ".x", 0]`, `["and", [[">", ".x", 1], ["<", ".x", 1]]]`, `["like", ".s", "w*"]`, `["any", ".l", ["==", ".", 5]]`},
-	"[0]":       {`["==", ".x", 0]`, `["<", ".x", 1]`, `["not", [">", ".x", 0]]`, `["like", ".s", "*0"]`, `["any", ".l", ["==", ".", 0]]`, `["<=", ".x", 0]`},
-	"[1]":       {`["==", ".x", 1]`, `["and", [[">", ".x", 0], ["<", ".x", 2]]]`, `["like", ".s", "v1"]`, `["any", ".l", ["==", ".", 1]]`},
-	"[2]":       {`["==", ".x", 2]`, `[">", ".x", 1]`, `[">=", ".x", 2]`, `["like", ".s", "?2"]`, `["not", ["<", ".x", 2]]`},
-	"[0 1]":     {`["<", ".x", 2]`, `["<=", ".x", 1]`, `["not", ["==", ".x", 2]]`, `["or", [["==", ".x", 0], ["==", ".x", 1]]]`, `["any", ".l", ["<", ".", 2]]`},
-	"[0 2]":     {`["not", ["==", ".x", 1]]`, `["or", [["==", ".x", 0], ["==", ".x", 2]]]`, `["not", ["like", ".s", "*1"]]`},
-	"[1 2]":     {`[">", ".x", 0]`, `[">=", ".x", 1]`, `["all", ".l", [">", ".", 0]]`, `["not", ["==", ".x", 0]]`},
-	"[0 1 2]":   {`[">=", ".x", 0]`, `["<=", ".x", 2]`, `["like", ".s", "v*"]`, `["all", ".l", [">=", ".", 0]]`, `["any", ".l", ["==", ".", 9]]`, `["not", ["==", ".x", 7]]`},
-	"[0 1 2 3]": {`["==", ".y?", 3]`, `["and", []]`, `["like", ".y?", "*"]`, `["and", [["==", ".y?", 3], [">", ".z?", 0]]]`},
-}
-
-func init() {
-	// "?2" above is a literal pattern: '?' is not special in the glob language, so fix it to a
-	// pattern that really accepts exactly "v2".
-	policyCatalogue["[2]"][3] = `["like", ".s", "*2"]`
+	"[]": {`["==", ".x", 7]`, `["<", ".x", 0]`, `["and", [[">", ".x", 1], ["<", ".x", 1]]]`, `["like", ".s", "w*"]`, `["any", ".l", ["==", ".", 5]]`,
+		`["==", ".t[0:1]", "e"]`, `["not", ["==", ".t[-1:]", "ü"]]`, `["==", ".m.k", "0"]`},
+	"[0]": {`["==", ".x", 0]`, `["<", ".x", 1]`, `["not", [">", ".x", 0]]`, `["like", ".s", "*0"]`, `["any", ".l", ["==", ".", 0]]`, `["<=", ".x", 0]`,
+		`["==", ".t[1:2]", "0"]`, `["like", ".t[1:]", "0*"]`, `["==", ".l[-2]", 0]`, `["==", ".m.k", 0]`},
+	"[1]": {`["==", ".x", 1]`, `["and", [[">", ".x", 0], ["<", ".x", 2]]]`, `["like", ".s", "v1"]`, `["any", ".l", ["==", ".", 1]]`,
+		`["==", ".t[-2:-1]", "1"]`, `["==", ".m[\"k\"]", 1]`, `["all", ".m[]", ["==", ".", 1]]`},
+	"[2]": {`["==", ".x", 2]`, `[">", ".x", 1]`, `[">=", ".x", 2]`, `["like", ".s", "*2"]`, `["not", ["<", ".x", 2]]`,
+		`["==", ".t[1:2]", "2"]`, `["any", ".l[0:1]", ["==", ".", 2]]`},
+	"[0 1]": {`["<", ".x", 2]`, `["<=", ".x", 1]`, `["not", ["==", ".x", 2]]`, `["or", [["==", ".x", 0], ["==", ".x", 1]]]`, `["any", ".l", ["<", ".", 2]]`,
+		`["not", ["==", ".t[-2:]", "2ü"]]`},
+	"[0 2]": {`["not", ["==", ".x", 1]]`, `["or", [["==", ".x", 0], ["==", ".x", 2]]]`, `["not", ["like", ".s", "*1"]]`, `["not", ["==", ".t[0:2]", "é1"]]`},
+	"[1 2]": {`[">", ".x", 0]`, `[">=", ".x", 1]`, `["all", ".l", [">", ".", 0]]`, `["not", ["==", ".x", 0]]`, `["not", ["like", ".t[:2]", "é0"]]`},
+	"[0 1 2]": {`[">=", ".x", 0]`, `["<=", ".x", 2]`, `["like", ".s", "v*"]`, `["all", ".l", [">=", ".", 0]]`, `["any", ".l", ["==", ".", 9]]`, `["not", ["==", ".x", 7]]`,
+		`["==", ".t[:1]", "é"]`, `["==", ".t[2:]", "ü"]`, `["==", ".l[-1]", 9]`, `["==", ".l[1]", 9]`, `["like", ".t", "é*ü"]`},
+	"[0 1 2 3]": {`["==", ".y?", 3]`, `["and", []]`, `["like", ".y?", "*"]`, `["and", [["==", ".y?", 3], [">", ".z?", 0]]]`, `["==", ".l?[5]?", 1]`},
 }
 
 func concreteArgs(p int) *args.Args {
@@ -195,6 +196,8 @@ func concreteArgs(p int) *args.Args {
 	_ = a.Add("x", p)
 	_ = a.Add("s", "v"+strconv.Itoa(p))
 	_ = a.Add("l", []int{p, 9})
+	_ = a.Add("t", "é"+strconv.Itoa(p)+"ü")
+	_ = a.Add("m", map[string]any{"k": p})
 	return a
 }
 
@@ -256,6 +259,19 @@ type matLink struct {
 
 func relDur(bound, now int) time.Duration { return time.Duration(bound-now) * time.Hour }
 
+// bounds at the far ends of the time line (model values 99 and -99)
+var farFuture = []time.Time{time.Unix(9223372037, 0), time.Date(2300, 1, 1, 0, 0, 0, 0, time.UTC), time.Date(3000, 6, 1, 12, 0, 0, 5e8, time.UTC),
+	time.Date(9999, 12, 31, 23, 59, 59, 0, time.UTC), time.Unix(1<<53-1, 0)}
+var farPast = []time.Time{time.Unix(-9223372037, 0), time.Date(1000, 1, 1, 0, 0, 0, 0, time.UTC), time.Unix(0, 0), time.Unix(1, 0), time.Unix(-(1<<53 - 1), 0),
+	time.Date(1969, 12, 31, 23, 59, 59, 5e8, time.UTC)}
+
+func (w *world) farTime(model int) time.Time {
+	if model > 0 {
+		return farFuture[w.rng.Intn(len(farFuture))]
+	}
+	return farPast[w.rng.Intn(len(farPast))]
+}
+
 func (w *world) link(l absLink, now int) (*matLink, error) {
 	key, _ := json.Marshal(l)
 	k := string(key)
@@ -289,10 +305,20 @@ func (w *world) link(l absLink, now int) (*matLink, error) {
 		}
 		opts = append(opts, delegation.WithSubject(sub))
 	}
-	if l.Nbf != -1 {
+	switch {
+	case l.Nbf == 99:
+		opts = append(opts, delegation.WithNotBefore(w.farTime(l.Nbf)))
+	case l.Nbf == -99:
+		// the delegation constructor takes a past not-before time only as a (negative) duration: at most ~292 years back
+		opts = append(opts, delegation.WithNotBeforeIn([]time.Duration{time.Duration(math.MinInt64), -100 * 365 * 24 * time.Hour, time.Until(time.Unix(0, 0)),
+			time.Until(time.Unix(1, 0)), time.Until(time.Date(1969, 12, 31, 23, 59, 59, 5e8, time.UTC))}[w.rng.Intn(5)]))
+	case l.Nbf != -1:
 		opts = append(opts, delegation.WithNotBeforeIn(relDur(l.Nbf, now)))
 	}
-	if l.Exp != -1 {
+	switch {
+	case l.Exp == 99 || l.Exp == -99:
+		opts = append(opts, delegation.WithExpiration(w.farTime(l.Exp)))
+	case l.Exp != -1:
 		opts = append(opts, delegation.WithExpirationIn(relDur(l.Exp, now)))
 	}
 	var tok *delegation.Token
@@ -396,7 +422,10 @@ func (w *world) validateReal(c *chainCase, variant int) (allowed bool, stage str
 		}
 		opts = append(opts, invocation.WithAudience(aud))
 	}
-	if c.Inv.Exp != -1 {
+	switch {
+	case c.Inv.Exp == 99 || c.Inv.Exp == -99:
+		opts = append(opts, invocation.WithExpiration(w.farTime(c.Inv.Exp)))
+	case c.Inv.Exp != -1:
 		opts = append(opts, invocation.WithExpirationIn(relDur(c.Inv.Exp, c.Now)))
 	}
 	// fields that are irrelevant to authorization
@@ -1016,3 +1045,107 @@ func personaNames() map[string]string {
 }
 
 var _ = datamodel.Kind_Map
+
+// ---------------------------------------------------------------------------------------------
+// The policy catalogue judged by the specification: one Match event per (statement, argument
+// point) for TracePolicy.tla, so that the meaning of the catalogue is the specification's, not
+// only the real matcher's.
+
+func stmtFromJSON(x any) (stmt, error) {
+	l, ok := x.([]any)
+	if !ok || len(l) < 2 {
+		return stmt{}, fmt.Errorf("not a statement: %v", x)
+	}
+	op, _ := l[0].(string)
+	lit := func(v any) ([]any, error) {
+		switch t := v.(type) {
+		case float64:
+			return []any{"int", t}, nil
+		case string:
+			return []any{"string", toAny(stringToCps(t))}, nil
+		case bool:
+			return []any{"bool", t}, nil
+		case nil:
+			return []any{"null"}, nil
+		}
+		return nil, fmt.Errorf("unsupported literal %v", v)
+	}
+	switch op {
+	case "==", "<", "<=", ">", ">=":
+		sel, _ := l[1].(string)
+		v, err := lit(l[2])
+		if err != nil {
+			return stmt{}, err
+		}
+		return stmt{Op: op, Sel: stringToCps(sel), Val: v}, nil
+	case "like":
+		sel, _ := l[1].(string)
+		pat, _ := l[2].(string)
+		return stmt{Op: op, Sel: stringToCps(sel), Pat: stringToCps(pat)}, nil
+	case "not":
+		c, err := stmtFromJSON(l[1])
+		if err != nil {
+			return stmt{}, err
+		}
+		return stmt{Op: op, S: &c}, nil
+	case "and", "or":
+		cs, _ := l[1].([]any)
+		out := stmt{Op: op, SS: []stmt{}}
+		for _, c := range cs {
+			cc, err := stmtFromJSON(c)
+			if err != nil {
+				return stmt{}, err
+			}
+			out.SS = append(out.SS, cc)
+		}
+		return out, nil
+	case "all", "any":
+		sel, _ := l[1].(string)
+		c, err := stmtFromJSON(l[2])
+		if err != nil {
+			return stmt{}, err
+		}
+		return stmt{Op: op, Sel: stringToCps(sel), S: &c}, nil
+	}
+	return stmt{}, fmt.Errorf("unknown operator %q", op)
+}
+
+func init() {
+	drivers["catalogue"] = func(seed int64, n int, emit func(any)) error {
+		keys := []string{}
+		for k := range policyCatalogue {
+			keys = append(keys, k)
+		}
+		sort.Strings(keys)
+		for _, key := range keys {
+			for _, text := range policyCatalogue[key] {
+				var x any
+				if err := json.Unmarshal([]byte(text), &x); err != nil {
+					return fmt.Errorf("%s: %v", text, err)
+				}
+				st, err := stmtFromJSON(x)
+				if err != nil {
+					return fmt.Errorf("%s: %v", text, err)
+				}
+				p, err := policyViaIPLD(st)
+				if err != nil {
+					return fmt.Errorf("%s: %v", text, err)
+				}
+				pr, err := policyViaIPLD(reversed(st))
+				if err != nil {
+					return err
+				}
+				for pt := 0; pt < 4; pt++ {
+					nd, err := argsOfPoint(pt).ToIPLD()
+					if err != nil {
+						return err
+					}
+					r, rr := matchReal(p, nd), matchReal(pr, nd)
+					emit(map[string]any{"ev": "Match", "st": st.term(), "data": jsonOf(nd), "match": r.match, "partial": r.partial,
+						"panic": r.panicked != "" || rr.panicked != "", "rmatch": rr.match, "rpartial": rr.partial, "catalogue": key, "point": pt})
+				}
+			}
+		}
+		return nil
+	}
+}
